@@ -282,8 +282,16 @@ class AstToSqlVisitor(visitor.NodeVisitor):
             if suffix:
                 res = res + f" || '{suffix}'"
         else:
-            res = str(arg.val).replace("%", "%%").replace("_", "__")  # type: ignore
-            res = "'" + prefix + res + suffix + "'"
+            val = str(arg.val)  # type: ignore
+            # Escape the LIKE wildcards (and the escape character itself), so
+            # that they are matched literally:
+            escaped = (
+                val.replace("\\", "\\\\").replace("%", "\\%").replace("_", "\\_")
+            )
+            # Replace single quotes with double single-quotes acc SQL standard:
+            res = "'" + prefix + escaped.replace("'", "''") + suffix + "'"
+            if escaped != val:
+                res += " ESCAPE '\\'"
         return res
 
     def sqlfunc_contains(self, *args: ast._Node) -> str:
